@@ -11,8 +11,8 @@ class _S:
     waiting = vt.SharedAttr("waiting", False)
 
 
-def _run(body, prefix):
-    ctl = vt.Controller(prefix, horizon=500)
+def _run(body, prefix, sleep_at=None):
+    ctl = vt.Controller(prefix, horizon=500, sleep_at=sleep_at)
     vt.set_controller(ctl, None)
     out = {"abort": None}
     try:
@@ -26,7 +26,7 @@ def _run(body, prefix):
     return ctl, out
 
 
-def lost_update(prefix):
+def lost_update(prefix, sleep_at=None):
     s = _S()
     s.x = 0
 
@@ -42,10 +42,10 @@ def lost_update(prefix):
         t2.join()
         return s.__dict__.get("_vf_shared_x")
 
-    return _run(body, prefix)
+    return _run(body, prefix, sleep_at)
 
 
-def lost_wakeup(prefix):
+def lost_wakeup(prefix, sleep_at=None):
     s = _S()
     s.ready, s.waiting = False, False
     q = vt.VQueue()
@@ -64,7 +64,7 @@ def lost_wakeup(prefix):
         t.join()
         return "done"
 
-    return _run(body, prefix)
+    return _run(body, prefix, sleep_at)
 
 
 def main() -> int:
@@ -92,4 +92,14 @@ def main() -> int:
         if a != b:
             print(f"selftest E1: schedule {sc} not reproducible ({a} vs {b})")
             failures += 1
+    # 4. the sleep-set reduction keeps every outcome and the deadlock, with far fewer executions
+    full = sum(1 for _ in ex.explore(lost_update, bound=None))
+    outs = [o["value"] for _, _, o in ex.explore_por(lost_update)]
+    if set(outs) != {1, 2} or not len(outs) < full:
+        print(f"selftest E1 POR lost-update: outcomes {set(outs)} in {len(outs)} executions (unreduced {full})")
+        failures += 1
+    dead = [o["abort"] for _, _, o in ex.explore_por(lost_wakeup)]
+    if "deadlock" not in dead:
+        print(f"selftest E1 POR lost-wake-up: deadlock not found in {len(dead)} executions")
+        failures += 1
     return failures
